@@ -613,4 +613,175 @@ theorem incBE_eq_incLast (d x : Bytes) (k : Nat) (h : incLast d k = some x) : in
       simp [List.dropLast_concat]
     · simp [hb] at h
 
+
+/-! ### tries built by `add_code2cid` -/
+
+theorem lookup_dictSet_self : ∀ (d : TDict) (k : UInt8) (v : Trie), (dictSet d k v).lookup k = some v
+  | [], k, v => by simp [dictSet, List.lookup]
+  | (k', v') :: rest, k, v => by
+    unfold dictSet
+    by_cases h : k' = k
+    · subst h; simp [List.lookup]
+    · have h' : (k == k') = false := by simpa using fun e : k = k' => h e.symm
+      simp only [beq_iff_eq, h, if_false, List.lookup_cons, h']
+      exact lookup_dictSet_self rest k v
+
+theorem lookup_dictSet_other : ∀ (d : TDict) (k k2 : UInt8) (v : Trie), k2 ≠ k →
+    (dictSet d k v).lookup k2 = d.lookup k2
+  | [], k, k2, v, h => by
+    have : (k2 == k) = false := by simpa using h
+    simp [dictSet, List.lookup, this]
+  | (k', v') :: rest, k, k2, v, h => by
+    unfold dictSet
+    by_cases hk : k' = k
+    · subst hk
+      have : (k2 == k') = false := by simpa using h
+      simp [List.lookup_cons, this]
+    · simp only [beq_iff_eq, hk, if_false, List.lookup_cons]
+      rw [lookup_dictSet_other rest k k2 v h]
+
+/-- After `add_code2cid(code, cid)` succeeds, `code` is a code of the CMap with that CID. -/
+theorem walk_insert_self : ∀ (c : Bytes) (d d' : TDict) (cid : Nat),
+    trieInsert d c cid = .ok d' → walk d' c = some (.leaf cid)
+  | [], d, d', cid, h => by simp [trieInsert] at h
+  | [b], d, d', cid, h => by
+    simp only [trieInsert, Except.ok.injEq] at h
+    subst h
+    simp [walk, lookup_dictSet_self]
+  | b :: b2 :: rest, d, d', cid, h => by
+    simp only [trieInsert] at h
+    cases hl : d.lookup b with
+    | none =>
+      simp only [hl] at h
+      cases hi : trieInsert [] (b2 :: rest) cid with
+      | error e => simp [hi] at h
+      | ok t =>
+        simp only [hi, Except.ok.injEq] at h
+        subst h
+        simp only [walk, lookup_dictSet_self]
+        exact walk_insert_self (b2 :: rest) [] t cid hi
+    | some tr =>
+      cases tr with
+      | leaf n => simp [hl] at h
+      | node dn =>
+        simp only [hl] at h
+        cases hi : trieInsert dn (b2 :: rest) cid with
+        | error e => simp [hi] at h
+        | ok t =>
+          simp only [hi, Except.ok.injEq] at h
+          subst h
+          simp only [walk, lookup_dictSet_self]
+          exact walk_insert_self (b2 :: rest) dn t cid hi
+
+
+theorem walk_nil_cons (b : UInt8) (r : Bytes) : walk [] (b :: r) = none := by
+  simp [walk, List.lookup]
+
+/-- `add_code2cid(code, cid)` does not change what the CMap says about any byte sequence that is neither a
+prefix nor an extension of `code`. -/
+theorem walk_insert_other : ∀ (c : Bytes) (d d' : TDict) (cid : Nat) (c2 : Bytes),
+    trieInsert d c cid = .ok d' → ¬ c <+: c2 → ¬ c2 <+: c → walk d' c2 = walk d c2
+  | [], d, d', cid, c2, h, _, _ => by simp [trieInsert] at h
+  | _ :: _, d, d', cid, [], _, _, h2 => absurd List.nil_prefix h2
+  | [b], d, d', cid, b' :: r2, h, h1, _ => by
+    simp only [trieInsert, Except.ok.injEq] at h
+    subst h
+    have hne : b' ≠ b := by
+      intro e; subst e
+      exact h1 (List.cons_prefix_cons.mpr ⟨rfl, List.nil_prefix⟩)
+    simp only [walk, lookup_dictSet_other _ _ _ _ hne]
+  | b :: b2 :: rest, d, d', cid, b' :: r2, h, h1, h2 => by
+    by_cases hb : b' = b
+    · subst hb
+      have h1' : ¬ (b2 :: rest) <+: r2 := fun hp => h1 (List.cons_prefix_cons.mpr ⟨rfl, hp⟩)
+      have h2' : ¬ r2 <+: (b2 :: rest) := fun hp => h2 (List.cons_prefix_cons.mpr ⟨rfl, hp⟩)
+      simp only [trieInsert] at h
+      cases hl : d.lookup b' with
+      | none =>
+        simp only [hl] at h
+        cases hi : trieInsert [] (b2 :: rest) cid with
+        | error e => simp [hi] at h
+        | ok t =>
+          simp only [hi, Except.ok.injEq] at h
+          subst h
+          simp only [walk, lookup_dictSet_self, hl]
+          rw [walk_insert_other (b2 :: rest) [] t cid r2 hi h1' h2']
+          cases r2 with
+          | nil => exact absurd List.nil_prefix h2'
+          | cons x xs => exact walk_nil_cons x xs
+      | some tr =>
+        cases tr with
+        | leaf n => simp [hl] at h
+        | node dn =>
+          simp only [hl] at h
+          cases hi : trieInsert dn (b2 :: rest) cid with
+          | error e => simp [hi] at h
+          | ok t =>
+            simp only [hi, Except.ok.injEq] at h
+            subst h
+            simp only [walk, lookup_dictSet_self, hl]
+            exact walk_insert_other (b2 :: rest) dn t cid r2 hi h1' h2'
+    · simp only [trieInsert] at h
+      have key : ∀ (v : Trie), walk (dictSet d b v) (b' :: r2) = walk d (b' :: r2) := by
+        intro v
+        simp only [walk, lookup_dictSet_other _ _ _ _ hb]
+      cases hl : d.lookup b with
+      | none =>
+        simp only [hl] at h
+        cases hi : trieInsert [] (b2 :: rest) cid with
+        | error e => simp [hi] at h
+        | ok t =>
+          simp only [hi, Except.ok.injEq] at h
+          subst h
+          exact key _
+      | some tr =>
+        cases tr with
+        | leaf n => simp [hl] at h
+        | node dn =>
+          simp only [hl] at h
+          cases hi : trieInsert dn (b2 :: rest) cid with
+          | error e => simp [hi] at h
+          | ok t =>
+            simp only [hi, Except.ok.injEq] at h
+            subst h
+            exact key _
+
+
+/-- `add_code2cid` for every entry of a code table, in order. -/
+def buildTrie : List (Bytes × Nat) → TDict → Except Err TDict
+  | [], d => .ok d
+  | e :: rest, d =>
+    match trieInsert d e.1 e.2 with
+    | .ok d' => buildTrie rest d'
+    | .error err => .error err
+
+/-- No code of the table is a prefix of another one (codespace ranges guarantee this for CMaps). -/
+def PrefixFree (tab : List (Bytes × Nat)) : Prop :=
+  tab.Pairwise (fun a b => ¬ a.1 <+: b.1 ∧ ¬ b.1 <+: a.1)
+
+theorem buildTrie_walk : ∀ (tab : List (Bytes × Nat)) (d t : TDict), PrefixFree tab → buildTrie tab d = .ok t →
+    (∀ e ∈ tab, walk t e.1 = some (.leaf e.2)) ∧
+    (∀ c2 : Bytes, (∀ e ∈ tab, ¬ e.1 <+: c2 ∧ ¬ c2 <+: e.1) → walk t c2 = walk d c2)
+  | [], d, t, _, h => by
+    simp only [buildTrie, Except.ok.injEq] at h
+    subst h
+    simp
+  | e :: rest, d, t, hp, h => by
+    simp only [buildTrie] at h
+    cases hi : trieInsert d e.1 e.2 with
+    | error err => simp [hi] at h
+    | ok d1 =>
+      simp only [hi] at h
+      have hp' := List.pairwise_cons.mp hp
+      obtain ⟨ih1, ih2⟩ := buildTrie_walk rest d1 t hp'.2 h
+      constructor
+      · intro x hx
+        rcases List.mem_cons.mp hx with rfl | hx
+        · rw [ih2 x.1 (fun y hy => ⟨(hp'.1 y hy).2, (hp'.1 y hy).1⟩)]
+          exact walk_insert_self x.1 d d1 x.2 hi
+        · exact ih1 x hx
+      · intro c2 hc
+        rw [ih2 c2 (fun y hy => hc y (List.mem_cons_of_mem _ hy))]
+        exact walk_insert_other e.1 d d1 e.2 c2 hi (hc e (by simp)).1 (hc e (by simp)).2
+
 end PdfVerif.CIDFontLemmas
